@@ -153,6 +153,8 @@ class Gen:
             if kd['vs'][0]['r']:
                 kd['vs'][0] = V(kd['vs'][0]['n'] or 64 * 60)
         inst = [kd for kd in b['ks'] if kd['k'] == 'instrument'][0]['vs'][0]['s']
+        if not endless and all(kd['m'] == 'k' for kd in ks):     # a voice that is not under a Pdur must end
+            ks[0] = dict(ks[0], m='list', vs=[ks[0]['vs'][0]] * self.r.randint(1, 4))
         return dict(t='mono', s=inst, ks=ks)
 
     def prog(self):
